@@ -212,7 +212,7 @@ pub fn finish(
             "model_conformance": conform_json,
         },
         "assumptions": [
-            "third-party behaviour is modelled by verif_rt: bounded MPMC channel (crossbeam), thread pool (rusty_pool: a job starts when submitted, job panics contained), std Mutex (never poisoned) and threads; see DESIGN.md section 3",
+            "third-party behaviour is modelled by verif_rt: bounded MPMC channel (crossbeam), thread pool (rusty_pool: a job starts when submitted, job panics contained), std Mutex (poisons like std's) and threads; see DESIGN.md section 3",
             "real time is abstracted: Instant is a logical tick, elapsed() = 0, the 3 s shutdown timeout fires only when no task can run",
             "preemption-bounded: schedules needing more preemptions than the completed bound are not covered",
             "atomics are SeqCst in rs-store; they are scheduling points only in scenarios that sample metrics concurrently"
